@@ -57,6 +57,23 @@ func VerifC20_Schemes() {
 	verif_Assume(err == nil)
 	u, uerr := ToURL(m)
 	verif_Assert(uerr == nil && u.Path == "a/b" && u.Host == "1.2.3.4:80", "an http-path component becomes the URL path")
+	// hosts as publishers advertise them: every DNS flavour with and without a port
+	// (only raw IPv6 addresses are bracketed)
+	for _, c := range []struct{ ma, host string }{
+		{"/dns/example.com/https", "example.com"},
+		{"/dns4/example.com/https", "example.com"},
+		{"/dns6/example.com/https", "example.com"},
+		{"/dns6/example.com/tcp/8443/https", "example.com:8443"},
+		{"/dns4/example.com/tcp/80/http", "example.com:80"},
+		{"/ip6/2001:db8::1/tcp/443/https", "[2001:db8::1]:443"},
+		{"/ip6/2001:db8::1/https", "[2001:db8::1]"},
+		{"/ip4/1.2.3.4/http", "1.2.3.4"},
+	} {
+		m, err := multiaddr.NewMultiaddr(c.ma)
+		verif_Assume(err == nil)
+		u, uerr := ToURL(m)
+		verif_Assert(uerr == nil && u.Host == c.host, "the URL names the host and port the address names")
+	}
 }
 
 // C20 (legacy form): a multiaddr that carries the path in the old 'httpath'
